@@ -39,14 +39,22 @@ def edge_values(law, branch, edges):
 def lookup(b, branch, load, disturb=None):
     """stress then strain look-up; `disturb` (an in-range load of another class) is looked up in between:
     the look-up must be a function of its arguments, not of the call history."""
+    def failing(fn, like):
+        # a look-up far above the initialised maximum (raises ValueError) between the two calls: the table object must come through it unchanged
+        try:
+            fn(like * 64.0 + (1e6 if np.isscalar(like) else 1e6))
+        except ValueError:
+            pass
     if branch == 'primary':
         s = b.stress(load)
         if disturb is not None:
             b.stress(disturb)
+            failing(b.stress, load)
         return s, b.strain(s, load)
     s = b.stress_secondary_branch(load)
     if disturb is not None:
         b.stress_secondary_branch(disturb)
+        failing(b.stress_secondary_branch, load)
     return s, b.strain_secondary_branch(s, load)
 
 
